@@ -249,3 +249,138 @@ def check(run, prog, tier):
                "between the obj_list link (line %s) and enter_object_hash (line %s) these calls can destruct the object: %s" % (ln.get("l"), en.get("l"), bad[:4]),
                f.file, en.get("l"), f.name, what="%s lets %s run before the new object is in the name table; destructing it then unlinks the head of its hash bucket and every other object in that bucket becomes unfindable" % (f.name, bad[:2]))
     run.need(ne >= 2, "functions that create and enter objects (found %d)" % ne)
+
+    # ---- C08-f walking a command giver's sentence list across verb functions
+    import stale
+    run.rule("C08-f", "user_parser: after a verb function returned, the sentence pointer is dereferenced only when it is the list head, or when both (a) no sentence was removed (illegal_sentence_action is clear) and (b) the command giver itself is not destructed (destruct_object frees its whole list); every free_sentence() of a list member signals one of the two", 3)
+    up = run.need(prog.func("user_parser"), "user_parser")
+    run.saw(up)
+    tv = {}
+    for b, i, n in up.nodes(reachable_only=False):
+        if n.get("k") == "Ref" and n.get("d") in ("local", "param") and "sentence_s *" in (n.get("t") or "") and "**" not in (n.get("t") or ""):
+            tv[n["id"]] = n["n"]
+    run.need(tv, "sentence_t* locals in user_parser")
+
+    def kill(c, st):
+        return "k" if cg.callees_of_call(up, c) & ret_lpc else None
+
+    def head_eq(c, t):
+        op, l, r = atom_of(c, t)
+        if op != "==":
+            return None
+        for x, y in ((strip(l), strip(r)), (strip(r), strip(l))):
+            if x.get("k") == "Ref" and x.get("id") in tv and y.get("k") == "Mem" and y.get("f") == "sent":
+                return x.get("id")
+        return None
+
+    def refresh_removed(c, t):
+        for a, tt in stale.implied_atoms(c, t):
+            h = head_eq(a, tt)
+            if h is not None:
+                yield h
+            op, l, r = atom_of(a, tt)
+            if (op == "false" and strip(l).get("n") == "illegal_sentence_action") or (op == "==" and strip(l).get("n") == "illegal_sentence_action" and const_val(r) == 0):
+                for v in tv:
+                    yield v
+
+    def refresh_owner(c, t):
+        for a, tt in stale.implied_atoms(c, t):
+            h = head_eq(a, tt)
+            if h is not None:
+                yield h
+            op, l, r = atom_of(a, tt)
+            l0 = strip(l)
+            if op == "false" and l0.get("k") == "Bin" and l0.get("op") == "&" and facts.any_in_macro(l0, "O_DESTRUCTED") and any(x.get("k") == "Mem" and x.get("f") == "flags" and "command_giver" in show(x) for x in walk(l0)):
+                for v in tv:
+                    yield v
+    # `switch (illegal_sentence_action) { case 1: error; case 2: error; }` has no default: that edge is infeasible when
+    # every store to the flag is one of the case constants, 0, or a saved earlier value of the flag itself
+    infeasible = set()
+    flag_vals = set()
+    flag_ok = True
+    for g in prog.functions():
+        for b2, i2, n2 in g.nodes():
+            if n2.get("k") == "Asg" and strip(n2["L"]).get("k") == "Ref" and strip(n2["L"]).get("n") == "illegal_sentence_action":
+                v = const_val(n2["R"])
+                if v is not None:
+                    flag_vals.add(v)
+                elif "illegal_sentence_action" not in show(n2["R"]):
+                    flag_ok = False
+    for bid in up.reachable():
+        blk = up.blocks[bid]
+        t = blk.term or {}
+        if t.get("k") == "SwitchStmt" and strip(t.get("cond") or (blk.el[-1] if blk.el else {})).get("n") == "illegal_sentence_action":
+            cases = {up.blocks[x].label.get("lo") for x in blk.succ if x is not None and up.blocks[x].label and up.blocks[x].label.get("k") == "case"}
+            if flag_ok and flag_vals - {0} <= cases:
+                for x in blk.succ:
+                    if x is not None and not (up.blocks[x].label and up.blocks[x].label.get("k") == "case"):
+                        infeasible.add((bid, x))
+    for hazard, rf, text in (("removed", refresh_removed, "a sentence may have been removed by the verb function (remove_action / an object with actions left): illegal_sentence_action must be tested first"),
+                             ("owner-destructed", refresh_owner, "the command giver may have destructed itself, which frees its whole sentence list: its O_DESTRUCTED flag must be tested first")):
+        res = stale.analyse(up, tv, kill, rf, infeasible_edges=infeasible)
+        bad = sorted({(n.get("l"), what) for blk, n, ref, what, sites in res.uses if sites and what.startswith(tuple(v + "->" for v in tv.values()))})
+        run.ob("C08-f", "sentence-walk:%s" % hazard, not bad, "every dereference of the sentence pointer after a verb function is behind the %s test (or the list-head comparison)" % hazard if not bad else
+               "%s at line %s after the verb function returned: %s" % (bad[0][1], bad[0][0], text), up.file, bad[0][0] if bad else up.line, "user_parser",
+               what="user_parser dereferences a possibly freed sentence (%s at line %s): %s" % (bad[0][1] if bad else "", bad[0][0] if bad else "", text))
+    # every free_sentence of something that was a list member signals the walker
+    nfs = 0
+    for f in sorted(prog.functions(), key=lambda x: (x.file, x.line)):
+        for j, (b, i, n) in enumerate(sorted(f.calls("free_sentence"), key=lambda x: x[2].get("l") or 0)):
+            a0 = strip(n["args"][0])
+            # never in a ->sent list: an input_to sentence, or one allocated in this function and not linked
+            if a0.get("k") == "Mem" and a0.get("f") == "input_to":
+                continue
+            if a0.get("k") == "Ref" and any(n2.get("k") == "Asg" and strip(n2["L"]).get("id") == a0.get("id") and strip(n2["R"]).get("k") == "Call" and strip(n2["R"]).get("fn") == "alloc_sentence" for b2, i2, n2 in f.nodes()):
+                continue
+            if a0.get("k") == "Ref" and any(n2.get("k") in ("Asg", "Decl") and "input_to" in show(n2) and a0.get("n") in show(n2) for b2, i2, n2 in f.nodes()):
+                continue
+            nfs += 1
+            sets_flag = any(n2.get("k") == "Asg" and strip(n2["L"]).get("n") == "illegal_sentence_action" and const_val(n2["R"]) not in (None, 0) and (b2.id == b.id or f.dominates(b.id, b2.id)) for b2, i2, n2 in f.nodes())
+            owner_dies = f.name in ("destruct_object", "dealloc_object") and any(x.get("k") == "Mem" and x.get("f") == "sent" for b2, i2, n2 in f.nodes() if n2.get("k") == "Asg" and strip(n2["L"]).get("id") == a0.get("id") for x in walk(n2["R"]))
+            run.ob("C08-f", "free-signals:%s:%s:%d" % (rel(f.file), f.name, j), sets_flag or owner_dies,
+                   "free_sentence() at line %s %s" % (n.get("l"), "is followed by illegal_sentence_action = <non-zero>" if sets_flag else ("releases the list of the object being destructed (signalled by its O_DESTRUCTED flag)" if owner_dies else "neither sets illegal_sentence_action nor belongs to the destruction of the list's owner")),
+                   f.file, n.get("l"), f.name, what="%s frees a sentence that may be part of a list user_parser is walking without signalling it" % f.name)
+    run.need(nfs >= 3, "free_sentence sites of list members (found %d)" % nfs)
+
+    # ---- C08-g the name table's unlink relies on the lookup's move-to-front
+    run.rule("C08-g", "remove_object_hash() unlinks the head of the bucket (obj_table[h] = ob->next_hash) right after find_obj_n(): so find_obj_n must leave every object it returns at the head of its chain (store obj_table[h] = found, or it had no predecessor)", 2)
+    ot = prog.unit("lib/lpc/otable.c")
+    fo = run.need(ot.funcs.get("find_obj_n"), "find_obj_n")
+    ro = run.need(ot.funcs.get("remove_object_hash"), "remove_object_hash")
+    run.saw(fo)
+    run.saw(ro)
+    rets = [(b, i, n) for b, i, n in fo.nodes() if n.get("k") == "Return" and n.get("e") is not None and const_val(n["e"]) != 0 and strip(n["e"]).get("k") == "Ref"]
+    run.need(rets, "return of the found object in find_obj_n")
+    vid = strip(rets[0][2]["e"]).get("id")
+    heads = {b.id for b, i, n in fo.nodes() if n.get("k") == "Asg" and n.get("op") == "=" and strip(n["L"]).get("k") == "Sub" and strip(strip(n["L"])["b"]).get("n") == "obj_table" and strip(n["R"]).get("id") == vid}
+    # a predecessor variable: a local pointer whose every assignment is 0 or the returned variable
+    preds = set()
+    for b, i, n in fo.nodes():
+        if n.get("k") == "Ref" and n.get("d") == "local" and n.get("id") != vid and "object_s *" in (n.get("t") or "") and "**" not in (n.get("t") or ""):
+            ds = [strip(n2["R"]) for b2, i2, n2 in fo.nodes() if n2.get("k") == "Asg" and n2.get("op") == "=" and strip(n2["L"]).get("id") == n.get("id")]
+            ds += [strip(v["init"]) for b2, i2, n2 in fo.nodes() if n2.get("k") == "Decl" for v in n2.get("vars", []) if v.get("id") == n.get("id") and "init" in v]
+            if ds and all(const_val(d) == 0 or d.get("id") == vid for d in ds):
+                preds.add(n.get("id"))
+    no_pred_edges = set()
+    for bid in fo.reachable():
+        c = fo.branch_cond(bid)
+        if c is None:
+            continue
+        c0, t0 = normalize_cond(c, True)
+        if strip(c0).get("k") == "Ref" and strip(c0).get("id") in preds:
+            blk = fo.blocks[bid]
+            no_pred_edges.add((bid, blk.succ[1] if t0 else blk.succ[0]))
+    # paths to the return that neither store the head nor come through "no predecessor"; the first loop iteration reaches the
+    # match with prev == 0, so only the part after the match test matters: start from the blocks that test the name
+    match = [bid for bid in fo.reachable() if fo.branch_cond(bid) is not None and any(x.get("k") == "Call" and x.get("fn") in ("strcmp", "__builtin_strcmp") for x in walk(fo.branch_cond(bid)))]
+    run.need(match, "name comparison in find_obj_n")
+    p = fo.reach_avoiding(match, lambda blk: blk.id == rets[0][0].id, avoid_blocks=heads, avoid_edges=no_pred_edges)
+    run.ob("C08-g", "lookup-moves-to-front", p is None, "every object find_obj_n returns is at the head of its chain (obj_table[h] = found, or no predecessor)" if p is None else
+           "path %s returns the found object without making it the bucket head: remove_object_hash() then cuts every entry in front of it out of the name table" % (p[:8],), fo.file, rets[0][2].get("l"), "find_obj_n",
+           what="find_obj_n no longer moves the object it returns to the head of its hash chain, which remove_object_hash relies on")
+    unl = [(b, i, n) for b, i, n in ro.nodes() if n.get("k") == "Asg" and strip(n["L"]).get("k") == "Sub" and strip(strip(n["L"])["b"]).get("n") == "obj_table" and any(x.get("k") == "Mem" and x.get("f") == "next_hash" for x in walk(n["R"]))]
+    run.need(unl, "head unlink in remove_object_hash")
+    fcall = [(b, i, n) for b, i, n in ro.calls("find_obj_n")]
+    oku = bool(fcall) and ro.point_dominates((fcall[0][0].id, fcall[0][1]), (unl[0][0].id, unl[0][1]))
+    run.ob("C08-g", "unlink-after-lookup", oku, "remove_object_hash looks the object up (moving it to the head) before unlinking the head", ro.file, unl[0][2].get("l"), "remove_object_hash",
+           what="remove_object_hash unlinks the bucket head without first moving the object there")
